@@ -77,7 +77,7 @@ def gen_pred_cases(r, n):
             args = [base, size, p, nn]
             if name.startswith("struct_"):
                 args = args[:3]
-        out.append("b%d p %s %s" % (i, name, " ".join("%x" % a for a in args)))
+        out.append("b%d p %s %s" % (i, name, " ".join("%x" % (a & M64) for a in args)))
     return out
 
 
@@ -88,7 +88,7 @@ def gen_model_only(r, n):
         name = names[i % len(names)]
         size = r.choice([0, 8, 28, 32, 0x1000, 1 << 32, M64])
         args = [bval(r, [size, 0, (0 - size) & M64]) for _ in range(MODEL_ONLY[name])]
-        out.append("m%d p %s %s" % (i, name, " ".join("%x" % a for a in args)))
+        out.append("m%d p %s %s" % (i, name, " ".join("%x" % (a & M64) for a in args)))
     return out
 
 
@@ -390,6 +390,13 @@ def run(tier, replay=None):
                                                       "answered": len(out), "cases": len(fcases)})
             found = True
         byid = {c.split(" ", 1)[0]: c for c in fcases}
+        # re-run every crash/timeout once alone with a generous timeout: scans are deterministic, load-induced time-outs are not
+        bad = [l.split(" ", 1)[0] for l in out if " ok " not in l[:14] and not f17_shape(l)]
+        if bad and len(bad) <= 40 and not replay:
+            rout, rrc, rerr = core.run_lines([flavour_bin, rules, "120"], [byid[c] for c in bad if c in byid], timeout=3000)
+            redo = {l.split(" ", 1)[0]: l for l in rout}
+            out = [redo.get(l.split(" ", 1)[0], l) if (" ok " not in l[:14] and not f17_shape(l)) else l for l in out]
+            stats["not_reproduced_when_rerun_alone"] = sum(1 for c in bad if " ok " in redo.get(c, "")[:14])
         for l in out:
             cid = l.split(" ", 1)[0]
             fmt, kind = meta.get(cid, ("?", "?"))
